@@ -48,18 +48,18 @@ CHECKS = {
         ref="6/C08",
     ),
     "C10": dict(
-        text="For every population a run hands out or records (initial, each history entry, final, and the same in every resumed run): stored log_likelihood/log_prior/log_q of row i equal L, PI, Q of row i's coordinates (UF congruence: a value paired with another row's coordinates is refutable), initial and final sizes as requested. The initial-population harness in the FP sort lets the prior be -inf/NaN per row so that the finite-prior filter, concatenation and trimming of draw_initial_samples run symbolically (up to 3 draw rounds); one loop configuration runs with the real bounded (logit) preconditioning transform.",
+        text="For every population a run hands out or records (initial, each history entry, final, and the same in every resumed run): stored log_likelihood/log_prior/log_q of row i equal L, PI, Q of row i's coordinates (UF congruence: a value paired with another row's coordinates is refutable), initial and final sizes as requested. The initial-population harness in the FP sort lets the prior be -inf/+inf/NaN per row so that the finite-prior filter, concatenation and trimming of draw_initial_samples run symbolically (up to 3 draw rounds); loop configurations with the real bounded (logit) preconditioning transform run for MiniPCNSMC and EmceeSMC.",
         note="Loop harness bounds: N=2 (quick) / N<=3 (thorough) particles, d=1, <=2 (quick) / <=4 (thorough) iterations, schedules fixed 1/2(/4), adaptive with min_step 1/2 (and max_n_steps, unbounded in thorough; paths reaching the unrolling bound are counted as cut); user functions, proposal, generator and MCMC kernels are stubs (uninterpreted functions / symbolic streams / fake kernel modules); SMCSampler.sample is a logging-stripped copy of the current source with beta_tolerance 1/4. FP harness: N<=2 requested, <=2 draw rounds (cut beyond), Float64.",
         ref="6/C10",
     ),
     "C11": dict(
         text="Two runs per path: a reference run checkpointing every iteration (payload serialised with the sampler's own serialize_checkpoint; symbolic populations survive pickling) and, for every checkpoint, a fresh sampler with a generator in a different state resumed from the bytes / the unpickled dict / the very dictionary handed to the callback (after the run moved on) / a real HDF5 file written by default_file_checkpoint_callback after a fault injected at every likelihood call; the solver shows equal temperature ladders, populations, evidence and every history series.",
-        note="Loop harness bounds: N=2 (quick) / N<=3 (thorough) particles, d=1, <=2 (quick) / <=4 (thorough) iterations, schedules fixed 1/2(/4), adaptive with min_step 1/2 (and max_n_steps, unbounded in thorough; paths reaching the unrolling bound are counted as cut); user functions, proposal, generator and MCMC kernels are stubs (uninterpreted functions / symbolic streams / fake kernel modules); SMCSampler.sample is a logging-stripped copy of the current source with beta_tolerance 1/4. Known finding C11-D6 (rescaled min_step not checkpointed) is listed in known_findings.json; Aspire.resume_from_file route not exercised.",
+        note="Loop harness bounds: N=2 (quick) / N<=3 (thorough) particles, d=1, <=2 (quick) / <=4 (thorough) iterations, schedules fixed 1/2(/4), adaptive with min_step 1/2 (and max_n_steps, unbounded in thorough; paths reaching the unrolling bound are counted as cut); user functions, proposal, generator and MCMC kernels are stubs (uninterpreted functions / symbolic streams / fake kernel modules); SMCSampler.sample is a logging-stripped copy of the current source with beta_tolerance 1/4. Known finding C11-D6 (rescaled min_step not checkpointed) is listed in known_findings.json; The Aspire.resume_from_file constructor is exercised by the resume_file configurations.",
         ref="6/C11",
     ),
     "C12": dict(
-        text="Partial. Cadence: checkpoint_every is a symbolic integer in {1,2,3}; the callback sequence equals {t: t mod every = 0} plus the forced final one and every payload carries the loop's current population, temperature and history length. After a fault at every likelihood call the real HDF5 file holds byte-for-byte the most recent payload. Blob overwrite: the real dump_pickle_to_hdf against a dataset model with symbolic old/new lengths leaves exactly the new blob (length and content at every index).",
-        note="Loop harness bounds: N=2 (quick) / N<=3 (thorough) particles, d=1, <=2 (quick) / <=4 (thorough) iterations, schedules fixed 1/2(/4), adaptive with min_step 1/2 (and max_n_steps, unbounded in thorough; paths reaching the unrolling bound are counted as cut); user functions, proposal, generator and MCMC kernels are stubs (uninterpreted functions / symbolic streams / fake kernel modules); SMCSampler.sample is a logging-stripped copy of the current source with beta_tolerance 1/4. Atomicity of a write interrupted inside h5py and the /aspire_config, /flow groups (C14) are outside.",
+        text="Partial. Cadence: checkpoint_every is a symbolic integer in {1,2,3}; the callback sequence equals {t: t mod every = 0} plus the forced final one and every payload carries the loop's current population, temperature and history length. After a fault at every likelihood call the real HDF5 file holds byte-for-byte the most recent payload; through the real Aspire.sample_posterior the interrupted run's file additionally holds /aspire_config and /flow and is accepted by Aspire.resume_from_file. Blob overwrite: the real dump_pickle_to_hdf against a dataset model with symbolic old/new lengths leaves exactly the new blob (length and content at every index).",
+        note="Loop harness bounds: N=2 (quick) / N<=3 (thorough) particles, d=1, <=2 (quick) / <=4 (thorough) iterations, schedules fixed 1/2(/4), adaptive with min_step 1/2 (and max_n_steps, unbounded in thorough; paths reaching the unrolling bound are counted as cut); user functions, proposal, generator and MCMC kernels are stubs (uninterpreted functions / symbolic streams / fake kernel modules); SMCSampler.sample is a logging-stripped copy of the current source with beta_tolerance 1/4. Atomicity of a write interrupted inside h5py and the consistency of /aspire_config and /flow with the checkpoint (C14) are outside.",
         ref="6/C12",
     ),
     "C14": dict(
@@ -69,7 +69,7 @@ CHECKS = {
         ref="6/C14",
     ),
     "C16": dict(
-        text="For BaseSamples, Samples and SMCSamples built in the symbolic namespace with every cell a distinct variable and every optional-field subset: selection by slice, integer position, symbolic Boolean mask and symbolic integer index array, split-and-concatenate, pickle and flat/nested dict round trips, in sequences of up to 2 (quick) / 3 (thorough) operations, compared field by field (including log_w and weights, parameters, namespace, dtype tag, beta) with a plain-list reference model; evidence attached to a set is carried (a value that cannot be recomputed is planted).",
+        text="For BaseSamples, Samples and SMCSamples built in the symbolic namespace with every cell a distinct variable and every optional-field subset: selection by slice, integer position, symbolic Boolean mask and symbolic integer index array, split-and-concatenate, pickle and flat/nested dict round trips, in sequences of up to 2 (quick) / 3 (thorough) operations, compared field by field (including log_w and weights, parameters, namespace, dtype tag, beta) with a plain-list reference model; evidence attached to a set, weighted or not, is carried (a value that cannot be recomputed is planted).",
         note="N=3 (quick) / 4 (thorough), d=2; sequences enumerated, contents symbolic; known finding C16-D11 (SMCSamples.concatenate drops beta).",
         ref="6/C16",
     ),
@@ -95,8 +95,8 @@ CHECKS = {
         ref="6/C20",
     ),
     "C09": dict(
-        text="For the real SMCSamples.resample: the probability vector handed to the generator is proportional to exp((b1-b0)(ll+lp-lq)) and sums to one, and with a symbolic index vector (one ite-select path covers all N^M index vectors) every output row equals its source row in x, log_likelihood, log_prior and log_q; new beta, requested size, parameters and dtype preserved; also on an object whose weights were inspected and whose fields were then re-assigned.",
-        note="Temperatures on the grid {0,1/4,1/2,3/4,1}; N<=3 (quick) / N<=4 (thorough), d=2; generator stub; reals for floats.",
+        text="For the real SMCSamples.resample: the probability vector handed to the generator is proportional to exp((b1-b0)(ll+lp-lq)) and sums to one, and with a symbolic index vector (one ite-select path covers all N^M index vectors) every output row equals its source row in x, log_likelihood, log_prior and log_q; new beta, requested size, parameters and dtype preserved; also on an object whose weights were inspected and whose fields were then re-assigned, and for a same-temperature call with an explicit size. The same clauses are posed on every resampling performed inside whole runs of the real SMCSampler.sample (one per tempering iteration and the final n_final_samples enlargement): the vector at the generator stub is proportional to the incremental weights of the recorded source population, the number drawn is the size requested, and the rows handed to the kernel are the drawn copies of the source rows.",
+        note="Temperatures on the grid {0,1/4,1/2,3/4,1}; N<=3 (quick) / N<=4 (thorough), d=2; generator stub offers only the weighted draw (any other request is a refutation); reals for floats; whole runs within the loop-harness bounds (N=2, d=1, <=2 iterations quick / N<=3, <=4 iterations thorough).",
         ref="6/C09",
     ),
 }
